@@ -1108,6 +1108,13 @@ def run(an: Analysis, rep):
     rep.run(_c04d.r045, an, shd11)
     rep.run(lambda a_, r_: _c04d.r04f(a_, r_, roundtrip=True), an, _SR(rep, "R11.Y", "from_code then to_code folded over witness code objects of every kind of scope (C04's R04.W witnesses): the flags word, "
                                                                             "the argument counts and every other header field handed to CodeType equal the attributes of the witness"))
+    from . import line_fold as _lf11
+    rep.run(_lf11.hand_tables_rule, an, rep)
+    from . import c02 as _c02p
+    shx11 = _SR(rep, "R11.X", "code units and operands the data cannot describe are refused by from_code, not repaired (shared with C02's R02.8 / C09's R09.7): prefixes behind the last instruction, a fourth "
+                              "prefix, an operand that wrapped around to a negative table index - 'never returns silently lossy data'")
+    rep.run(_c02p.r02p, an, shx11)
+    rep.run(c09.negative_index_rule, an, shx11)
     from . import c03 as _c03e
     rep.run(_c03e.r03e, an, _SR(rep, "R11.E", "the encoder's layout folded over witness block lists (shared with C03's R03.E): the tables come out in first-use order with the unreferenced entries last - the "
                                               "order the decoder assumed when it left them without a position - so co_names / co_consts are reproduced exactly"))
